@@ -4,11 +4,11 @@ from assembly import *
 from glue_common import CLASSES
 
 
-def interior_target(cls, rule, refc):
+def interior_target(cls, rule, refc, sig=None):
     """classifier of known finding F3"""
     if cls.startswith('Gen'):
         return rule in (4, 6)
-    nus = [forward(cls, z).real for z in refc]
+    nus = [forward(cls, z, sig).real for z in refc]
     return rule == 4 and min(nus) < 0 < max(nus)
 
 
@@ -23,13 +23,14 @@ def predicate(cls, n, nev, ncv, step):
     refc = [complex(a, b) for a, b in ref]
     if cls == 'SymGEigsShiftSolver_Buckling' or not cls.startswith('Gen'):
         refc = [complex(z.real, 0) for z in refc]
-    exp = wanted(cls, rule, refc, nev)
+    sig = shift_of(step.get('_line'))
+    exp = wanted(cls, rule, refc, nev, sig)
     if exp is None:
         return f              # the cut falls inside a tie / negligible gap: the property does not apply
     got = evals_of(step)
     scale = max(abs(z) for z in refc) + 1e-300
     ok, g = match_sets(got, exp, 1e-6 * scale)
-    if not ok and interior_target(cls, rule, refc):
+    if not ok and interior_target(cls, rule, refc, sig):
         genuine, _ = match_sets(got, refc, 1e-6 * scale)
         if genuine:
             f.append('KNOWN:F3')
